@@ -608,7 +608,7 @@ struct FnEmitter {
         }
         if (c.getOperand(0)->getType()->isPointerTy()) {
           if (c.isEquality()) out << "  " << lhs << " = (" << op(0) << o << op(1) << ");\n";
-          else out << "  " << lhs << " = (" << (sg ? "(int64_t)" : "") << "(uint64_t)" << op(0) << o << (sg ? "(int64_t)" : "") << "(uint64_t)" << op(1) << ");\n";
+          else out << "  " << lhs << " = (" << op(0) << o << op(1) << "); /* pointer relation */\n";
         } else if (sg) out << "  " << lhs << " = (" << sval(c.getOperand(0)) << o << sval(c.getOperand(1)) << ");\n";
         else out << "  " << lhs << " = (" << op(0) << o << op(1) << ");\n";
         return;
